@@ -20,8 +20,7 @@ PROP = 'C04'
 LEVEL = 'proof'
 PROPS_MODULES = ['RTV.Props.C04']
 GEN = ['nummaps', 'chartables']
-REQUIRED_THEOREMS = ['english_cardinal', 'english_ordinal', 'english_sub1000', 'spell_words_in_maps',
-                     'english_cardinal_resolution']
+REQUIRED_THEOREMS = ['english_value', 'english_cardinal', 'english_ordinal', 'english_sub1000', 'spell_words_in_maps']
 RULE = ('unit: __get_int_value on every English numeral of the pipeline set + seeded token lists over each '
         "culture's map keys; pipeline: English n<10^4 (quick: every 7th + boundaries; thorough: all), 10^k, 10^k±1, "
         'seeded n<10^15, x 8 variants x cardinal/ordinal x alone/carrier; es fr pt de it nl zh ja: generator output '
@@ -253,7 +252,7 @@ def word_class(cu, text):
     """The word class a recorded finding is keyed by (so that a different defect of the same culture is not hidden
     behind a recorded signature)."""
     if cu == 'fr-fr':
-        return 'plural-cents' if 'cents' in text else 'hyphenated' if '-' in text else 'other'
+        return 'plural-cents' if 'cents' in text else 'compound' if ('-' in text or ' et ' in text) else 'other'
     if cu == 'it-it':
         return 'accented-tre' if 'tré' in text else 'other'
     if cu == 'pt-br':
